@@ -45,9 +45,15 @@ def plan(tier, seed):
         nd = int(pick(rng, [2, 2, 3]))
         img = [int(rng.integers(2, 7 if nd == 2 else 5)) for _ in range(nd)]
         nc = int(rng.integers(1, 7))
-        P.add("op", img=img, nc=nc, traj=pick(rng, ["cart", "cart", "random", "radial",
-                                                    "outside"]),
-              w=pick(rng, ["none", "kspace", "percoil"]), M=int(rng.integers(16, 40)),
+        traj_ = pick(rng, ["cart", "cart", "random", "radial", "outside"])
+        if nd == 3 and i % 4 == 1:
+            # a stack of slices: 3-D image, 2-D trajectory shared by the slices; as many
+            # coils as slices in half of these (shared weights then look like per-coil ones)
+            traj_ = "stack"
+            if i % 8 == 1:
+                nc = img[0]
+        P.add("op", img=img, nc=nc, traj=traj_,
+              w=pick(rng, ["none", "kspace", "percoil", "scalar"]), M=int(rng.integers(16, 40)),
               tseg=bool(rng.random() < 0.15), oseed=int(rng.integers(1 << 30)))
     rng = P.rng("recon")
     for i in range(70 if quick else 900):
@@ -67,8 +73,9 @@ def plan(tier, seed):
                                 "PrimalDualHybridGradient", "ADMM"]) if app.startswith("sense")
               else
               pick(rng, [None, "PrimalDualHybridGradient", "ADMM"]),
-              batch=pick(rng, [None, None, 1, 2]), w=pick(rng, ["none", "none", "kspace"]),
-              oseed=int(rng.integers(1 << 30)))
+              batch=pick(rng, [None, None, 1, 2]),
+              w=pick(rng, ["none", "none", "kspace", "scalar"]),
+              rho=pick(rng, [None, None, 0.25, 4.0]), oseed=int(rng.integers(1 << 30)))
     # directed: every solver whose step size is estimated from the operator norm, with coil maps
     # of very small / large magnitude; and total-variation recon with lamda > 0 on unit-rss
     # maps (an encoding operator whose norm is small compared with that of the gradient)
@@ -126,9 +133,14 @@ def run_op(case):
     x = crandn(rng, img, cdt)
     traj = case["traj"]
     tseg = None
+    ndt = nd                       # number of transformed (trailing) image axes
     if traj == "cart":
         coord = None
         kshape = list(img)
+    elif traj == "stack":
+        ndt = nd - 1
+        coord = np.ascontiguousarray(make_coord(rng, "random", img[1:], case["M"]))
+        kshape = [img[0], coord.shape[0]]
     else:
         coord = np.ascontiguousarray(make_coord(rng, traj, img, case["M"]))
         kshape = [coord.shape[0]]
@@ -141,7 +153,11 @@ def run_op(case):
         w = rng.random(kshape) + 0.1
     elif wk == "percoil":
         w = rng.random([nc] + kshape) + 0.1
-    if w is not None and case["oseed"] % 4 == 0:
+    elif wk == "scalar":
+        w = float(pick(rng, [0.25, 2.0, 9.0]))         # a float: one weight for every sample
+    if not isinstance(w, np.ndarray):
+        pass
+    elif w is not None and case["oseed"] % 4 == 0:
         w = rng.integers(0, 5, size=w.shape)            # integer weights (acquisition counts)
         wk += "-int"
     elif w is not None and case["oseed"] % 4 == 1:
@@ -155,7 +171,7 @@ def run_op(case):
     if coord is not None and case["oseed"] % 3 == 0:
         # history: an operator for ANOTHER trajectory of the same shape was built and used
         # earlier in this process
-        c_other = np.ascontiguousarray(make_coord(rng, "random", img, coord.shape[0]))
+        c_other = np.ascontiguousarray(make_coord(rng, "random", img[-ndt:], coord.shape[0]))
         if c_other.shape == coord.shape:
             Apre = mr.linop.Sense(mps, coord=c_other, weights=w)
             Apre(x)
@@ -189,17 +205,18 @@ def run_op(case):
                 return violated(sig, "Sense differs from sqrt(w) F(mps x) with the explicit "
                                 "centred DFT: rel %.3g" % e, wit, mech="encoding-cart", obs=obs)
         else:
-            ref = sq * ONDFT.ndft(mps * x, coord, nd)
-            M, N = kshape[0], int(np.prod(img))
+            ref = sq * ONDFT.ndft(mps * x, coord, ndt)
+            M, N = int(np.prod(kshape)), int(np.prod(img))
             errs = []
             for c in range(nc):
-                wc = 1.0 if w is None else (np.sqrt(w[c]) if wk == "percoil" else np.sqrt(w))
-                den = max(nrm(ref[c]), np.sqrt(M / N) * nrm(wc * np.ones(M)) / np.sqrt(M)
+                wc = 1.0 if w is None else (np.sqrt(w[c]) if wk.startswith("percoil")
+                                            else np.sqrt(w))
+                den = max(nrm(ref[c]), np.sqrt(M / N) * nrm(wc * np.ones(kshape)) / np.sqrt(M)
                           * nrm(mps[c] * x))
                 errs.append(nrm(y0[c] - ref[c]) / max(den, 1e-300))
             e = float(max(errs))
             checks += 1
-            bound = max(0.03, sep_bound(1.25, nd))
+            bound = max(0.03, sep_bound(1.25, ndt))
             obs["noncart_err/bound"] = e / bound
             if not e <= bound:
                 return violated(sig, "non-Cartesian Sense differs from the exact NDFT encoding "
@@ -287,6 +304,8 @@ def run_recon(case):
         traj, coord, kshape = "cart", None, list(img)
     if case["w"] == "kspace" and app != "sense-consistent":
         w = rng.random(kshape) + 0.2
+    if case["w"] == "scalar" and app != "sense-consistent":
+        w = float(pick(rng, [0.25, 9.0, 2.0]))        # a float: one weight for every sample
     if traj == "cart-mask" and w is None:
         w = (rng.random(kshape) < 0.7).astype(float)
         w.reshape(-1)[0] = 1.0
@@ -318,6 +337,12 @@ def run_recon(case):
     yw = (ksp * (1.0 if w_eff is None else np.sqrt(w_eff))).ravel()
     H = Am.conj().T @ Am
     kw = dict(show_pbar=False, coil_batch_size=case["batch"])
+    rho = case.get("rho")
+    if solver == "ADMM" and rho and not case.get("msc") and app in ("sense", "tv"):
+        kw["rho"] = rho         # the ADMM penalty: any positive value gives the same minimiser
+        sig += "|rho%g" % rho
+    else:
+        rho = None
     ksp_keep, mps_keep = ksp.copy(), mps.copy()
     try:
         if app.startswith("sense"):
@@ -326,7 +351,7 @@ def run_recon(case):
             if app == "sense-consistent" and np.linalg.cond(H) > 1e4:
                 return inconclusive("encoding not well determined")
             iters = {None: 300, "ConjugateGradient": 300, "GradientMethod": 2500,
-                     "PrimalDualHybridGradient": 3000, "ADMM": 200}[solver]
+                     "PrimalDualHybridGradient": 3000, "ADMM": 200 if not rho else 1200}[solver]
             xr = mr.app.SenseRecon(ksp, mps, lamda=lam, weights=w, coord=coord, solver=solver,
                                    max_iter=iters, **kw).run()
             xref = np.linalg.solve(H + lam * np.eye(n), Am.conj().T @ yw)
@@ -350,7 +375,8 @@ def run_recon(case):
                 Gm = dense(G)
                 R = mr.app.TotalVariationRecon(ksp, mps, lam, weights=w, coord=coord,
                                                solver=solver,
-                                               max_iter=250 if solver == "ADMM" else 2500,
+                                               max_iter=(250 if not rho else 1500)
+                                               if solver == "ADMM" else 2500,
                                                **kw)
             else:
                 W = sp.linop.Wavelet(img, wave_name="haar")
